@@ -117,6 +117,7 @@ class ThrottleExecutor(CanCustomizeBind, Executor):
         # (The submit thread's own event can't be shared for that: the submit
         # thread clears it, so a blocked submit() could miss the wake-up.)
         self._ready_event = get_event()
+        self._shutting_down = False
         self._running_count = AtomicInt()
         self._throttle = count if callable(count) else lambda: count
         self._last_throttle = self._throttle()
@@ -150,6 +151,10 @@ class ThrottleExecutor(CanCustomizeBind, Executor):
             return out
 
     def shutdown(self, wait=True, **_kwargs):
+        # A submit() blocked on a full queue holds the shutdown gate;
+        # tell it to give up waiting so that we can get the gate.
+        self._shutting_down = True
+        self._ready_event.set()
         if self._shutdown():
             self._log.debug("Shutting down")
             metrics.EXEC_INPROGRESS.labels(type="throttle", executor=self._name).dec()
@@ -159,10 +164,12 @@ class ThrottleExecutor(CanCustomizeBind, Executor):
                 self._thread.join(MAX_TIMEOUT)
 
     def _block_until_ready(self, throttle_val):
-        while self._block and not self._shutdown.is_shutdown:
+        while self._block:
             # Only one submit() can be here at a time (the caller holds the
             # shutdown gate), so clear -> check -> wait cannot lose a wake-up.
             self._ready_event.clear()
+            if self._shutdown.is_shutdown or self._shutting_down:
+                return
             if throttle_val is None or len(self._to_submit) < throttle_val:
                 return
             self._log.debug("%s: throttling on submit", self._name)
